@@ -1,7 +1,7 @@
 # Per-property claims; edited as checks are built. Executed by gen_manifest.py.
 PENDING = "check not built yet in this round (planned in DESIGN.md); not claimed until it runs clean on the unchanged tree"
 
-for _p in ["C04","C05","C07","C11","C12","C13","C14","C16","C17","C18"]:
+for _p in ["C04","C05","C11"]:
     na(_p, PENDING)
 
 na("C06", "quantifies over every byte prefix of a runtime tape and over archive/tar's behaviour on arbitrary bytes plus a termination argument for the resynchronisation loop; no sound dataflow/typestate rule in reach decides any clause of it (the only structural ingredient, earlier records are never touched, is claimed under C05)")
@@ -35,3 +35,32 @@ claim("C10",
       "Decides resource typestate on every control-flow path: each exit after a successful drive acquire has released it (and no close runs with the drive free), the tape manager's mutex is released on every error return and on every return of Close, every other mutex Lock is paired on all exits, library code has no panic / Must-compile of caller input / pipe goroutine that drops an error, and every BackendConfig binds Close* to the manager that Get* came from. Hangs caused by client pacing and injected I/O faults are not decided.",
       "typestate may-dataflow over go/cfg with err!=nil edge refinement (drive bracket, mutex pairs) + who-may-call crash-site rule with embedded positive control",
       "DESIGN.md §3 C10")
+
+claim("C07",
+      "Narrow: decides the insert discipline of the index store - every generated Insert is reachable only after a lookup by the same primary-key columns found nothing, the CREATE arm of replay goes through that method, every raw primary-key rewrite must be preceded by a check of the destination key (two known findings in MoveHeader), and replay rejects unknown actions. Convergence of re-indexing over histories is not decided.",
+      "go/cfg edge-fact domination of Insert by a keyed lookup + SQL-fragment classification of raw statements + switch-table check",
+      "DESIGN.md §3 C07")
+claim("C12",
+      "Decides that rows selected by an unescaped LIKE pattern built from a caller's name are re-checked against the literal prefix before they leave the persister, that Rename reaches Move only past a test relating the destination to the source's subtree, and that Delete/Move hand every descendant returned by the lookup to the write loop. What SQLite matches for a concrete tree is not decided.",
+      "SQL-fragment discovery over resolved query-builder calls + go/cfg edge-fact guards on result appends and on the move call",
+      "DESIGN.md §3 C12")
+claim("C13",
+      "Decides that every creation site tests the parent's kind before appending, that MkdirAll enumerates ancestors by a separator split and handles each prefix, that every select over the headers table filters tombstones (two frozen exceptions), and that listings exclude the queried directory itself. The SQL depth expression and limit arithmetic are not decided.",
+      "go/cfg edge-fact guards on append calls + value provenance of the range expression + SQL-fragment predicate check + who-may-call with embedded positive control",
+      "DESIGN.md §3 C13")
+claim("C14",
+      "Decides the seek algebra (offset enters every whence arm with coefficient +1; success returns yield the computed target, never a byte count), access gating of the read and write paths by the open flags, exclusive consumption of O_TRUNC/O_APPEND in enterWriteMode, and flush-before-discard on close. Byte/offset equality with a reference file is not decided.",
+      "linear normalisation of switch-arm expressions (sibling agreement) + go/cfg edge-fact guards + success-edge domination",
+      "DESIGN.md §3 C14")
+claim("C16",
+      "Decides destructive-path gating of opening: sink-reaching calls in Initialize only when the index has no root, no destructive call on the failure edge of the rebuild (one known finding), overwrite=true reaches the tape manager only from the two whitelisted commands, and truncation/rewind inside pkg/tape is control-dependent on overwrite with O_APPEND on every regular write open. Faithfulness of the view after opening is not decided.",
+      "go/cfg edge-fact guards and may-dataflow on the rebuild's failure edge + constant/flag provenance at NewTapeManager call sites",
+      "DESIGN.md §3 C16")
+claim("C17",
+      "Single clause: decides that every caller-supplied name reaches SQL only after getSanitizedPath (one frozen exception while initializing), that every root spelling of pathext.IsRoot has a branch in the normaliser, and that every cache type wraps non-root archive roots in a base-path view. That a given foreign archive opens correctly is not decided.",
+      "go/cfg must-dataflow taint discipline (sanitise-before-use) + literal-set agreement between sibling functions",
+      "DESIGN.md §3 C17")
+claim("C18",
+      "Decides table agreement per format key: the type each Parse* arm produces is identical to the type the matching Encrypt/Decrypt/Sign/Verify arm asserts, each generator/parser arm hands the password to a key-wrapping call of the crypto module, and conditional wrapping is matched by conditional unwrapping. Rejection of wrong passwords/keys is left to the crypto libraries.",
+      "switch-arm sibling agreement with types.Identical on produced vs asserted types + parameter-to-crypto-call flow per arm",
+      "DESIGN.md §3 C18")
